@@ -120,6 +120,19 @@ def drv_recall(s):
     return keep, N.split_multiple_persons_names(s)
 
 
+def drv_mwpair(s):
+    """the shipped pair: SeparateCoAuthors, MergeCoAuthors, SeparateCoAuthors again gives the same pieces"""
+    from bibtexparser.model import Entry, Field
+    from bibtexparser.library import Library
+    e = Entry("article", "k", [Field("author", s)])
+    N.SeparateCoAuthors(True).transform(Library([e]))
+    first = list(e.fields[0].value)
+    N.MergeCoAuthors(True).transform(Library([e]))
+    merged = e.fields[0].value
+    N.SeparateCoAuthors(True).transform(Library([e]))
+    return first, merged, list(e.fields[0].value)
+
+
 def drv_c(s):
     bal = balanced(s)
     if not bal:
@@ -316,6 +329,37 @@ def task_recall(L, sigma):
     return rec.result(L=L, worlds=len(worlds))
 
 
+def task_mwpair(L, sigma):
+    eng = Engine()
+    rec = Recorder(eng)
+    s = eng.sym_str("c", L, sigma)
+    E = eng.I.models.eq_simple
+    worlds = eng.run(drv_mwpair, [s])
+
+    def rp(m):
+        import logging
+        logging.disable(logging.CRITICAL)
+        t = eng.model_str(m, s)
+        try:
+            a, mg, b = drv_mwpair(t)
+        except Exception as ex:  # noqa
+            from pysym.harness import guard_repo_exception
+            guard_repo_exception(ex)
+            return {"input": t, "observed": f"raised {type(ex).__name__}: {ex}", "expected": "pieces"}
+        if a == b:
+            return None
+        return {"input": t, "observed": {"pieces": a, "merged": mg, "split again": b}, "expected": "the same pieces"}
+    for W in worlds:
+        if W.exc is not None:
+            rec.require(W, True, "no-exception", rp)
+            continue
+        a, mg, b = W.result
+        rec.require(W, b_not(E(a, b)), "idempotence-through-the-middlewares", rp)
+        if len(a) >= 2:
+            rec.witness("a-split-happened", W)
+    return rec.result(L=L, worlds=len(worlds))
+
+
 def task_c(L, prefix="", tmpl=None, sigma=None):
     eng = Engine()
     eng.interpret_also(ref_split, balanced)
@@ -409,6 +453,12 @@ def main():
     for l1, l2, l3 in itertools.product(range(L3, -1, -1), repeat=3):
         chk.add_task(f"tmpl3-exact-{l1}+{l2}+{l3}", task_c, L=0, tmpl=(l1, l2, l3))
         chk.add_task(f"tmpl3-conserve-{l1}+{l2}+{l3}", task_a, L=0, tmpl=(l1, l2, l3), idem=True)
+    # idempotence through the shipped middleware pair
+    SIGMA_M = " andx\\{}"
+    LM = 7 if chk.tier == "quick" else 9
+    chk.bounds["through SeparateCoAuthors / MergeCoAuthors"] = f"all strings of length 0..{LM} over {SIGMA_M!r}: separate, merge, separate gives the same pieces"
+    for L in range(LM, -1, -1):
+        chk.add_task(f"mwpair-L{L}", task_mwpair, L=L, sigma=SIGMA_M)
     # every whitespace character the function knows (tab and CR are not in the main alphabet)
     SIGMA_W = " \t\r\nandx"
     LW = 8 if chk.tier == "quick" else 10
